@@ -187,6 +187,9 @@ def gen_sizes(rng, sim, mode=None):
             sizes[cid] = n
         elif mode == "one_exhausted":
             sizes[cid] = n if j == 0 else 1
+        elif mode == "some_zero":
+            # a contest already confirmed (or not yet started) asks for no card while others still do
+            sizes[cid] = 0 if (j % 2 == 0) == (n % 2 == 0) and j < len(cids) - 1 else rng.randint(1, n)
         else:
             sizes[cid] = rng.randint(1, n)
     if not sim.use_style:
